@@ -2339,9 +2339,16 @@ class VM:
             try:
                 idx = int(key_str)
                 if idx >= 0 and str(idx) == key_str:
+                    if idx > len(obj._elements):
+                        # No holes: only existing elements and the next free
+                        # index can be written
+                        raise JSTypeError(
+                            f"Cannot set index {idx} of an array of length "
+                            f"{len(obj._elements)}: out-of-bound writes are not supported"
+                        )
                     obj.set_index(idx, value)
                     return
-            except (ValueError, IndexError):
+            except ValueError:
                 pass
             # If key looks like a number but isn't a valid integer index, throw
             # This includes NaN, Infinity, -Infinity, floats like "1.2"
